@@ -89,6 +89,14 @@ def ob_form_after_motion(et):
     dim = grp.dim
     fld = Field(grp, 1, MatrixType.rigi) if "matrixType" in Field.__init__.__code__.co_varnames else Field(grp, 1)
     form = BiLinearForm(lambda u, v: u.grad.dot(v.grad))
+    # a coefficient that depends on the position of the integration points (read through the field): it follows the mesh too
+    from EasyFEA.FEM._linalg import FeArray
+    kfun = lambda x, y, z: 1.0 + 0.3 * x - 0.2 * y + 0.1 * z
+
+    def kform(u, v):
+        x, y, z = u.Get_coords()
+        return FeArray.asfearray(kfun(np.asarray(x), np.asarray(y), np.asarray(z))) * u.dot(v)
+    form_k = BiLinearForm(kform)
     n = 0
 
     def compare(tag):
@@ -99,6 +107,13 @@ def ob_form_after_motion(et):
         if e > 1e-10:
             raise Refuted(f"{et}: the diffusion form integrated {tag} differs from GradUGradV on the current geometry by {e:.3e} (relative): data of an earlier integration is reused",
                           cex=dict(elemType=et, history=tag), signature=f"form:motion:{tag.split()[0]}", replay=dict(confirmed=True, rel_err=e))
+        got = np.asarray(form_k.Integrate_e(field=fld))
+        xg = np.asarray(mesh.groupElem.Get_GaussCoordinates_e_pg(mt))
+        want = np.asarray(Operators.Bilinear.UV(mesh.groupElem, FeArray.asfearray(kfun(xg[..., 0], xg[..., 1], xg[..., 2])), 1, mt))
+        e = float(np.abs(got - want).max() / np.abs(want).max())
+        if e > 1e-10:
+            raise Refuted(f"{et}: the form k(x, y, z) u v (coefficient read at field.Get_coords()) integrated {tag} differs from UV with the coefficient at the current integration points by {e:.3e} "
+                          f"(relative): coordinates of an earlier integration are reused", cex=dict(elemType=et, history=tag), signature=f"form:motion:coords:{tag.split()[0]}", replay=dict(confirmed=True, rel_err=e))
     compare("first")
     n += 1
     if dim == 2:
